@@ -26,6 +26,16 @@ def fingerprint(T, n):
     return (k,) + tuple(fingerprint(T, c) for c in n.children)
 
 
+def share(T, a, b):
+    """b with every sub-tree that has the same content as the sub-tree of a at the same position replaced by a's
+    OBJECT (maximal sharing of node objects between the two trees; contents unchanged)"""
+    if fingerprint(T, a) == fingerprint(T, b) and (a.head, a.tail, a.pos, a.size) == (b.head, b.tail, b.pos, b.size):
+        return a
+    if type(a) is type(b) and len(a.children) == len(b.children) and b.children:
+        b.children = [share(T, ca, cb) for ca, cb in zip(a.children, b.children)]
+    return b
+
+
 def mutate(r, T, g, tree):
     """return (mutant, kind) — a deep copy of tree with exactly one change at a random node"""
     t = copy.deepcopy(tree)
@@ -215,6 +225,24 @@ def correspond(model_ok, res):
         (lambda: T.Range(W("1"), W("2"), True, False), lambda: T.Range(W("1"), W("2"), True, True), "range-high-flag"),
     ]
     fixed_pairs = []
+    for mk_s in (lambda: W("s"), lambda: T.Group(T.OrOperation(W("p"), W("q"))), lambda: T.NoneItem(),
+                 lambda: T.Range(W("1"), W("2")), lambda: T.Fuzzy(W("z"), 2)):
+        # ONE object s at the same position of two trees that differ in a sibling before / after it
+        s_ = mk_s()
+        for cls in (T.AndOperation, T.OrOperation, T.UnknownOperation, T.BoolOperation):
+            fixed_pairs.append((cls(W("a"), s_), cls(W("b"), s_), "fixed:shared-object-last"))
+            fixed_pairs.append((cls(s_, W("a")), cls(s_, W("b")), "fixed:shared-object-first"))
+            fixed_pairs.append((cls(W("a"), s_, W("c")), cls(W("b"), s_, W("c")), "fixed:shared-object-middle"))
+            fixed_pairs.append((T.Group(cls(W("a"), T.Not(s_))), T.Group(cls(W("b"), T.Not(s_))), "fixed:shared-object-deep"))
+        fixed_pairs.append((T.Range(W("1"), s_), T.Range(W("2"), s_), "fixed:shared-bound-high"))
+        fixed_pairs.append((T.Range(s_, W("1")), T.Range(s_, W("2")), "fixed:shared-bound-low"))
+        fixed_pairs.append((T.SearchField("f", s_), T.SearchField("g", s_), "fixed:shared-field-expr"))
+    # two half-filled clones: the placeholder NONE_ITEM is one shared object
+    rg = T.Range(W("1"), W("9"))
+    c1, c2 = rg.clone_item(), rg.clone_item()
+    c1.children = [W("1"), c1.children[1]]
+    c2.children = [W("2"), c2.children[1]]
+    fixed_pairs.append((c1, c2, "fixed:half-filled-clones"))
     for mk_a, mk_b, kind in numeral_pairs:
         for wrap in wrappers[:4]:
             fixed_pairs.append((wrap(mk_a()), wrap(mk_b()), "fixed:" + kind))
@@ -231,6 +259,10 @@ def correspond(model_ok, res):
                         break
             else:
                 b, kind = g.tree(r.randrange(0, 3)), "unrelated"
+            if kind not in ("identical", "unrelated") and pi % 2:
+                # the two trees SHARE every sub-tree object they have in common (a query rebuilt around reused parts)
+                b = share(T, a, b)
+                kind += "+shared-objects"
         kinds[kind] = kinds.get(kind, 0) + 1
         try:
             ga, gb = lib.g_item(a), lib.g_item(b)
